@@ -950,3 +950,88 @@ Proof.
   fold (fold_items its (step_spec st it)). rewrite IH, step_other.
   destruct (d_type it =? CC_OTHER); reflexivity.
 Qed.
+
+(* --- assembling the specification object --- *)
+Definition mask_of (f : N -> bool) : N :=
+  fold_left (fun m F => if f F then N.setbit m F else m) (seqN 0 (N.to_nat CC_ENUM_END)) 0.
+
+Definition spec_cc (its : list bytes) : cc :=
+  mkcc (mask_of (spec_bit its))
+       (spec_num its CC_MAX_AGE) (spec_num its CC_S_MAXAGE) (spec_num its CC_MAX_STALE)
+       (spec_num its CC_STALE_IF_ERROR) (spec_num its CC_MIN_FRESH)
+       (spec_text its CC_PRIVATE) (spec_text its CC_NO_CACHE) (spec_other its).
+
+Lemma testbit_fold_setbit (f : N -> bool) : forall ids m n,
+  N.testbit (fold_left (fun m F => if f F then N.setbit m F else m) ids m) n =
+  N.testbit m n || existsb (fun F => (F =? n) && f F) ids.
+Proof.
+  induction ids as [|F ids IH]; intros m n; cbn [fold_left existsb]; [now rewrite orb_false_r|].
+  rewrite IH. destruct (f F).
+  - rewrite N.setbit_eqb. rewrite andb_true_r. now rewrite orb_assoc, (orb_comm (F =? n)).
+  - rewrite andb_false_r. reflexivity.
+Qed.
+
+Lemma testbit_mask_of f n : N.testbit (mask_of f) n = f n && (n <? CC_ENUM_END).
+Proof.
+  unfold mask_of. rewrite testbit_fold_setbit. rewrite N.bits_0. cbn [orb].
+  unfold CC_ENUM_END. cbn [N.to_nat Pos.to_nat Pos.iter_op Init.Nat.add seqN existsb N.succ Pos.succ].
+  destruct (n <? 15) eqn:E.
+  - assert (H : n = 0 \/ n = 1 \/ n = 2 \/ n = 3 \/ n = 4 \/ n = 5 \/ n = 6 \/ n = 7 \/ n = 8 \/ n = 9 \/
+                n = 10 \/ n = 11 \/ n = 12 \/ n = 13 \/ n = 14) by lia.
+    repeat (destruct H as [H|H]; [subst n; cbn; destruct (f _); reflexivity|]). subst n; cbn; destruct (f _); reflexivity.
+  - rewrite andb_false_r.
+    repeat match goal with |- context [?k =? n] => replace (k =? n) with false by lia end. reflexivity.
+Qed.
+
+Lemma spec_bit_high its n : CC_ENUM_END <= n -> spec_bit its n = false.
+Proof.
+  intros H. unfold spec_bit. induction its as [|it its IH]; cbn [existsb]; [reflexivity|].
+  rewrite IH, orb_false_r. unfold sel.
+  pose proof (type_lt_end (d_name it)) as Hlt. fold (d_type it) in Hlt.
+  replace (d_type it =? n) with false by lia. reflexivity.
+Qed.
+
+Lemma cc_ext a b :
+  cmask a = cmask b -> max_age a = max_age b -> s_maxage a = s_maxage b -> max_stale a = max_stale b ->
+  stale_if_error a = stale_if_error b -> min_fresh a = min_fresh b -> private_ a = private_ b ->
+  no_cache a = no_cache b -> other a = other b -> a = b.
+Proof. destruct a, b. cbn. intros. subst. reflexivity. Qed.
+
+Lemma isSet_init F : isSet cc_init F = false.
+Proof. unfold isSet, cc_init. cbn [cmask]. apply N.bits_0. Qed.
+
+Theorem fold_items_spec its : fold_items its cc_init = spec_cc its.
+Proof.
+  apply cc_ext; unfold spec_cc; cbn [cmask max_age s_maxage max_stale stale_if_error min_fresh private_ no_cache other].
+  - apply N.bits_inj. intros n. rewrite testbit_mask_of.
+    change (N.testbit (cmask (fold_items its cc_init)) n) with (isSet (fold_items its cc_init) n).
+    rewrite fold_bit, isSet_init. cbn [orb].
+    destruct (n <? CC_ENUM_END) eqn:E; [now rewrite andb_true_r|].
+    rewrite andb_false_r. apply spec_bit_high. lia.
+  - change (max_age (fold_items its cc_init)) with (get_num (fold_items its cc_init) CC_MAX_AGE).
+    rewrite (fold_num its cc_init CC_MAX_AGE cc_inv_init eq_refl), isSet_init. reflexivity.
+  - change (s_maxage (fold_items its cc_init)) with (get_num (fold_items its cc_init) CC_S_MAXAGE).
+    rewrite (fold_num its cc_init CC_S_MAXAGE cc_inv_init eq_refl), isSet_init. reflexivity.
+  - change (max_stale (fold_items its cc_init)) with (get_num (fold_items its cc_init) CC_MAX_STALE).
+    rewrite (fold_num its cc_init CC_MAX_STALE cc_inv_init eq_refl), isSet_init. reflexivity.
+  - change (stale_if_error (fold_items its cc_init)) with (get_num (fold_items its cc_init) CC_STALE_IF_ERROR).
+    rewrite (fold_num its cc_init CC_STALE_IF_ERROR cc_inv_init eq_refl), isSet_init. reflexivity.
+  - change (min_fresh (fold_items its cc_init)) with (get_num (fold_items its cc_init) CC_MIN_FRESH).
+    rewrite (fold_num its cc_init CC_MIN_FRESH cc_inv_init eq_refl), isSet_init. reflexivity.
+  - rewrite (fold_private its cc_init cc_inv_init), isSet_init. reflexivity.
+  - rewrite (fold_no_cache its cc_init cc_inv_init), isSet_init. reflexivity.
+  - rewrite fold_other. reflexivity.
+Qed.
+
+Lemma fold_left_ext {A B} (f g : A -> B -> A) : (forall a b, f a b = g a b) ->
+  forall l a, fold_left f l a = fold_left g l a.
+Proof. intros H l. induction l as [|x l IH]; intros a; cbn [fold_left]; [reflexivity|]. now rewrite H, IH. Qed.
+
+Lemma cc_parse_from_fold_items st v : cc_parse_from st v = Some (fold_items (list_items 44 v) st).
+Proof.
+  rewrite cc_parse_from_items. unfold fold_items. f_equal. apply fold_left_ext. apply step_item_spec.
+Qed.
+
+(* C29 main theorem 1: parse = the first-match specification over the list elements *)
+Theorem cc_parse_exact v : cc_parse v = Some (spec_cc (list_items 44 v)).
+Proof. unfold cc_parse. rewrite cc_parse_from_fold_items. f_equal. apply fold_items_spec. Qed.
